@@ -21,6 +21,7 @@ type PubFunc func(context.Context, cid.Cid) error
 type Republisher struct {
 	pubfunc          PubFunc
 	update           chan cid.Cid
+	updateLock       sync.Mutex // makes "replace the queued value" atomic for run
 	immediatePublish chan chan struct{}
 
 	cancel    func()
@@ -84,17 +85,16 @@ func (rp *Republisher) Close() error {
 // Update the current value. The value will be published after a delay but each
 // consecutive call to Update may extend this delay up to TimeoutLong.
 func (rp *Republisher) Update(c cid.Cid) {
+	// Replace the queued value under the lock: between dropping the old value
+	// and queueing the new one the channel is empty, and a WaitPub served in
+	// that window would return although the latest value is not published.
+	rp.updateLock.Lock()
+	defer rp.updateLock.Unlock()
 	select {
 	case <-rp.update:
-		select {
-		case rp.update <- c:
-		default:
-			// Don't try again. If we hit this case, there's a
-			// concurrent publish and we can safely let that
-			// concurrent publish win.
-		}
-	case rp.update <- c:
+	default:
 	}
+	rp.update <- c // never blocks: one slot, only Update fills it
 }
 
 // Run contains the core logic of the `Republisher`. It calls the user-defined
@@ -161,10 +161,12 @@ func (rp *Republisher) run(ctx context.Context, timeoutShort, timeoutLong time.D
 			continue
 		case waiter = <-immediatePublish:
 			// Make sure to grab the *latest* value to publish.
+			rp.updateLock.Lock()
 			select {
 			case toPublish = <-rp.update:
 			default:
 			}
+			rp.updateLock.Unlock()
 
 			// Avoid publishing duplicate values
 			if lastPublished.Equals(toPublish) {
